@@ -314,6 +314,20 @@ class Flattener(object):
                 body, bt = self.convert(list(s.body), res, at_tail)
                 out.append(ast.copy_location(ast.With(items=s.items, body=body, type_comment=None), s))
                 return out, bt
+            if isinstance(s, ast.Try) and not s.finalbody and rest and not _terminates([s]) and not _contains(s.body, ast.Return) \
+                    and not any(isinstance(x, ast.Raise) and x.exc is None for r_ in rest for x in ast.walk(r_)):
+                # try: B except E: ...return...   followed by rest   ==>   try: B except E: ...; [rest] else: orelse; rest
+                # (the continuation runs outside the protection of the handlers in both forms)
+                handlers = []
+                ht = True
+                for h in s.handlers:
+                    hb, t = self.convert(list(h.body) + clone(rest), res, at_tail)
+                    ht = ht and t
+                    handlers.append(ast.copy_location(ast.ExceptHandler(type=h.type, name=h.name, body=hb or [ast.Pass()]), h))
+                orelse, et = self.convert(list(s.orelse) + clone(rest), res, at_tail)
+                new = ast.Try(body=list(s.body), handlers=handlers, orelse=orelse, finalbody=[])
+                out.append(ast.copy_location(new, s))
+                return out, (et and ht)
             if isinstance(s, ast.Try) and not s.finalbody and (not rest or _terminates([s])):
                 body, bt = self.convert(list(s.body), res, at_tail)
                 handlers = []
